@@ -691,8 +691,24 @@ func runC07(job common.Job, em *emitter) {
 	g := &caseGuard{}
 	g.onHang = func(desc interface{}, why string) {
 		key := "nonterm"
-		if c, ok := desc.(c07Fill); ok {
+		switch c := desc.(type) {
+		case c07Fill:
 			key = "nonterm:" + c07Shape(c)
+		case c07Dec:
+			key = "nonterm:decor:" + c.Ctor
+		default:
+			// a case that runs a whole container (rows, clipping): its CPU time includes
+			// the harness polling for the frame and every goroutine of the container, so
+			// on a starved machine the budget says nothing. Termination is decided on the
+			// pure Fill / Decor calls; this case is not decided.
+			cur.res.Evals++
+			if cur.res.Status == common.Held {
+				cur.res.Status = common.Inconclusive
+				cur.res.Msg = "container-based case exceeded the CPU budget (" + why + "): not decided"
+			}
+			cur.res.Obs["skipped_rest_of_chunk_after_hang"] = 1
+			cur.finish(em)
+			return
 		}
 		cur.res.Evals++
 		cur.viol("rendering does not terminate: "+why, key, desc)
